@@ -135,9 +135,52 @@ func (fa *Facts) feasibleBlocks(f *ssa.Function, H map[string]bool) map[*ssa.Bas
 	if len(f.Blocks) == 0 {
 		return nil
 	}
-	return reachableFrom(f.Blocks[0], func(from, to *ssa.BasicBlock) bool {
-		return fa.infeasible(from, to, H)
-	})
+	// fixpoint with one step of path sensitivity: an edge out of a block
+	// whose branch tests its own phi is feasible only if it is feasible for
+	// the phi value arriving from some feasible predecessor.
+	var hl []string
+	for h := range H {
+		hl = append(hl, h)
+	}
+	phiOK := fa.PhiFeasible(hl...)
+	reach := map[*ssa.BasicBlock]bool{f.Blocks[0]: true}
+	edgeOK := map[[2]*ssa.BasicBlock]bool{}
+	for changed := true; changed; {
+		changed = false
+		for _, b := range f.Blocks {
+			if !reach[b] {
+				continue
+			}
+			for _, sc := range b.Succs {
+				k := [2]*ssa.BasicBlock{b, sc}
+				if edgeOK[k] {
+					continue
+				}
+				ok := true
+				for _, a := range fa.edgeAtoms(b, sc) {
+					if contradicts(a, H) {
+						ok = false
+					}
+				}
+				if ok && isPhiTestBlock(b) && b != f.Blocks[0] {
+					ok = false
+					for _, p := range b.Preds {
+						if reach[p] && edgeOK[[2]*ssa.BasicBlock{p, b}] && phiOK(b, p, sc) {
+							ok = true
+						}
+					}
+				}
+				if ok {
+					edgeOK[k] = true
+					changed = true
+					if !reach[sc] {
+						reach[sc] = true
+					}
+				}
+			}
+		}
+	}
+	return reach
 }
 
 func (fa *Facts) infeasible(from, to *ssa.BasicBlock, H map[string]bool) bool {
